@@ -212,7 +212,11 @@ where
             Some(adjustment) => {
                 let new_guess = guess + adjustment;
                 let new_norm = new_guess.dot(&new_guess).sqrt().abs();
-                if ((norm - new_norm) / norm).abs() <= tol || new_norm <= tol {
+                // Converged when the update itself is short, relative to the iterate
+                // or absolutely near the origin; comparing the norms of successive
+                // iterates accepts any update that happens to preserve the norm.
+                let shift_norm = adjustment.dot(&adjustment).sqrt().abs();
+                if shift_norm <= tol * norm || shift_norm <= tol {
                     return Ok(new_guess);
                 }
 
